@@ -320,3 +320,28 @@ Proof.
   destruct (boxed_starts_with_tag san s (it_ty it) ps v b) as [tg [Hg Hf]]; [unfold is_object; now rewrite Hs|exact He|].
   unfold obj_tag, variant_of in Hg. rewrite Hs in Hg. unfold struct_tag in Hg. rewrite Hs in Hg. inversion Hg; subst. exact Hf.
 Qed.
+
+(** ** the mask depends on the declared SET only: order and repetitions of the declaration are irrelevant *)
+Lemma has_ann_ext mine mine' a : (forall x, In x mine <-> In x mine') -> has_ann mine a = has_ann mine' a.
+Proof.
+  intro H. destruct (has_ann mine a) eqn:E1, (has_ann mine' a) eqn:E2; try reflexivity.
+  - apply has_ann_In in E1. apply H in E1. apply has_ann_In in E1. congruence.
+  - apply has_ann_In in E2. apply H in E2. apply has_ann_In in E2. congruence.
+Qed.
+
+Theorem ann_mask_order_free all mine mine' :
+  (forall x, In x mine <-> In x mine') -> ann_mask all mine = ann_mask all mine'.
+Proof.
+  intro H. unfold ann_mask. generalize 0. induction all as [|a r IH]; intro bit; cbn [ann_mask_from]; [reflexivity|].
+  now rewrite (has_ann_ext mine mine' a H), IH.
+Qed.
+
+(** no bit outside the annotation table is ever set *)
+Theorem ann_mask_no_other_bits all mine : forall bit n,
+  bit + lenN all <= n -> N.testbit (ann_mask_from bit all mine) n = false.
+Proof.
+  induction all as [|a r IH]; intros bit n H; cbn [ann_mask_from]; [apply N.bits_0|].
+  unfold lenN in *. cbn [length] in H. rewrite N.lor_spec, (IH (bit + 1) n) by lia. rewrite orb_false_r.
+  destruct (has_ann mine a); [|apply N.bits_0]. rewrite pow2_mod_testbit.
+  destruct (n =? bit) eqn:E; [lia|reflexivity].
+Qed.
